@@ -45,6 +45,10 @@ func ToString(bi *big.Int, precision int) string {
 	if fp.Sign() == 0 {
 		return s
 	}
+	if dp.Sign() == 0 && fp.Sign() < 0 {
+		// The integral part is zero and can't carry the sign.
+		s = "-" + s
+	}
 	frac := fp.Uint64()
 	trimmed := 0
 	for ; frac%10 == 0; frac /= 10 {
@@ -73,6 +77,10 @@ func FromString(s string, precision int) (*big.Int, error) {
 		return nil, ErrInvalidFormat
 	}
 	fp.Mul(fp, pow10(precision-len(parts[1])))
+	if bi.Sign() == 0 && strings.HasPrefix(parts[0], "-") {
+		// "-0.5": zero integral part doesn't keep the sign.
+		return fp.Neg(fp), nil
+	}
 	if bi.Sign() == -1 {
 		return bi.Sub(bi, fp), nil
 	}
